@@ -269,20 +269,20 @@ def TPk (fl : Bool) (mo : Option Nat) (tmpl : Term) (max : Nat) (prog : List Ter
 
 /-- the thunk of the first clause, then the frame with the thunks of the other clauses -/
 def TAk (fl : Bool) (mo : Option Nat) (tmpl : Term) (max : Nat) (prog : List Term) (F k : Nat) : Prop :=
-  ∀ (it : Term × Option SLD.Alt) (its : List (Term × Option SLD.Alt)) (id : Nat) (g : Term) (K : Cont) (env : Env)
+  ∀ (it : Item) (its : List Item) (id : Nat) (g : Term) (K : Cont) (env : Env)
     (R : List SLD.Frame) (q : Term)
     (nv n d : Nat) (r : SLD.Res) (lv : Lv) (m : MS) (sig : SigG Err) (m' : MS) (ans0 : List Term),
-    dfsAlts (VM.sem F) 0 k (Thunk.clause (clauseOf it.1) (argList g) K env id)
-      { id := id, delayed := its.map (fun it => Thunk.clause (clauseOf it.1) (argList g) K env id) }
+    dfsAlts (VM.sem F) 0 k (Thunk.clause it.1 (argList g) K env id)
+      { id := id, delayed := its.map (fun it => Thunk.clause it.1 (argList g) K env id) }
       (lv.map Prod.fst) m = some (sig, m') →
-    GoodA fl F k (Thunk.clause (clauseOf it.1) (argList g) K env id)
-      { id := id, delayed := its.map (fun it => Thunk.clause (clauseOf it.1) (argList g) K env id) }
+    GoodA fl F k (Thunk.clause it.1 (argList g) K env id)
+      { id := id, delayed := its.map (fun it => Thunk.clause it.1 (argList g) K env id) }
       (lv.map Prod.fst) m →
     m.user.answers = ans0 → id ≠ 0 → id ∉ lv.map Prod.fst →
     Shape g →
     SimAt fl mo tmpl max lv K env m.user.nextVar R q nv
       (fun σ π D => InD D g ∧ AltsRel fl σ π D nv d g (it :: its)) →
-    SLD.solveAlts false (progS prog) n d nv ((it :: its).filterMap (·.2)) R q (max - ans0.length) = some r →
+    SLD.solveAlts false (progS prog) n d nv ((it :: its).filterMap (·.2.2)) R q (max - ans0.length) = some r →
     LvOK mo lv d → StOK prog m → ans0.length < max →
     sig = .illScoped ∨ Match mo tmpl max prog lv ans0 m m' sig r
 
